@@ -406,7 +406,7 @@ func Run(cfg Config) (int, error) {
 	}
 	rounds := 3
 	if cfg.Tier == "thorough" {
-		rounds = 120
+		rounds = 12
 	}
 	rnd := hx.NewRand(cfg.Seed ^ 0xC04)
 	if err := r.combiner(ctx); err != nil {
